@@ -28,7 +28,13 @@ Two further dimensions:
   rings unsorted; input class + ':sort=False'; set and restored around each execution): every clause, C18.sort.features /
   .field (same feature edges, same directions against the mesh's own edges as with sorted rings) and, under that switch, every
   rotation of the face list (each face in position 0 in turn) and every transposition (0 k) of the vertex labels (each vertex in
-  position 0 in turn): C18.sort.face_in_position_0 / C18.sort.vertex_in_position_0.
+  position 0 in turn): C18.sort.face_in_position_0 / C18.sort.vertex_in_position_0;
+* the argument forms of the public entry points (SurfaceFrameField, flag_singularities of both fields, operators.laplacian /
+  laplacian_triangles / cotan_edge_diagonal / area_weight_matrix / area_weight_matrix_faces, optimize.inverse_power_method,
+  SurfaceConnectionVertices / SurfaceConnectionFaces): the documented defaults are pinned in DOC_SIGNATURES; every option omitted
+  in turn and all omitted together must give what the documented default passed explicitly gives (C18.defaults.omitted), every
+  positional prefix in the documented order what the same values give by keyword (C18.defaults.positional), and the table is
+  compared with inspect.signature (C18.defaults.signature); input class = the option.
 """
 from __future__ import annotations
 import cmath, itertools, math, os
@@ -37,7 +43,8 @@ from mc.core import Report, call, exc_kind
 ID = "C18"
 TECHNIQUE = ("bounded-exhaustive sweep (all triangulations of small point sets and lattice polygons x all configurations within 2 "
              "deviations x all relabelings x all length-2 field histories on one mesh object x the duplicate-attribute configuration switch x unit of length 2^-48 / 2^48 x unsorted vertex rings with every face / vertex in position 0) of the real frame-field solvers vs an "
-             "independently assembled dense connection-Laplacian oracle")
+             "independently assembled dense connection-Laplacian oracle; exhaustive argument forms (omitted / keyword / positional prefix) of the "
+             "public entry points vs the pinned table of documented defaults")
 RULE = ("inputs: every triangulation TRI(P) of the listed planar point sets (paraboloid lift z=(x^2+y^2)/16, and unlifted with "
         "the library's flat connection), lifted 3x3 / 3x4 grids, tetrahedron, octahedron, icosahedron, 3x3 and 3x4 tori; every "
         "triangulation of the listed planar lattice polygons (exact 45/90/135 degree border corners; default and flat connection); "
@@ -45,7 +52,7 @@ RULE = ("inputs: every triangulation TRI(P) of the listed planar point sets (par
         "smooth_normals within the deviation bound of the tier; relabelings and face-listing deviations (start rotations, "
         "swaps of adjacent faces) as listed in the bounds; histories: ordered pairs (A, B) of configurations (element x order x "
         "n_smooth {0,3}, A != B), A built/run/flagged then B built/run/flagged on the same mesh object, all clauses after each; on meshes where the features switch is not inert (an interior edge with normals' dot < 0.5) also the 48 pairs differing in features only; every history once more under config.display_duplicate_attribute_warning=True (clauses C18.history.dupflag.*); deviation dimensions on the meshes listed in the bounds, configurations = order 1-6 x n_smooth {0,3} with the default switches and cad_correction off + every single-switch deviation for the orders 3, 4 + the flat connection on the planar version: each run at unit scale (reference), with all coordinates x 2^-48 and x 2^48 (class ':unit=2^e': all clauses + C18.unit.*: same features, constraints, directions as the reference) and with config.sort_neighborhoods=False (class ':sort=False': all clauses + C18.sort.*: same features and edge-relative directions as with sorted rings; smoothing off, orders 1 and 4: every rotation of the face list and every vertex transposition (0 k), clauses C18.sort.face_in_position_0 / vertex_in_position_0); a case = one distinct (labelled and listed mesh, configuration) "
-        "execution of the real solver; non-trivial = the mesh has constrained elements or is closed (always true here)")
+        "execution of the real solver; non-trivial = the mesh has constrained elements or is closed (always true here); argument forms: for each entry point of DOC_SIGNATURES and each base assignment of the other options (DOC_BASES), each option omitted in turn, all omitted, all positional; every positional prefix of the value vectors DOC_VECTORS / DOC_OTHER; a form is non-trivial for an option when its other value changes the result on the input (asserted per option by finish)")
 ASSUMPTIONS = [
     "inputs are oriented manifold triangle complexes in general position (exact integer predicate), <= 12 vertices (icosahedron/torus) ",
     "the set of feature edges (FrameField.feat) and the local bases / edge angles of FrameField.conn are taken as given by the library (subjects of C15 / of the connection); the Laplacian, the fixed/free partition, chi, cotangents are recomputed independently",
@@ -59,11 +66,12 @@ ASSUMPTIONS = [
     "unit of length: multiplying every coordinate by 2^-48 or 2^48 is exact (asserted per input), every asserted quantity is dimensionless, so the expectations are those of unit scale with the same tolerances; the exact lattice predicates are evaluated on the coordinates divided by the factor again (exact); measured on the unchanged tree: all bordered inputs and all closed ones with n_smooth=0 on faces are right from 2^-60 to 2^60, the three scale-dependent defects found (attach weight of the smoothing steps on closed surfaces below ~2^-17 and above 2^24, eigen-solve of the closed vertex-based field above ~2^16) are reported, not excluded",
     "config.sort_neighborhoods is a documented switch of mouette.config ('sort the corner connectivity arrays'): the statement holds for either value; it is set immediately before the mesh is built, left in place while the field is computed and flagged, and restored in a finally (each task verifies it at its end); C18.sort.* compare with the run under sorted rings through directions measured against the mesh's own edges only (the local bases may legitimately start from another ring edge)",
     "the comparisons between listings under sort=False (face / vertex in position 0) are not asserted where the constraint itself depends on the listing: the two classes of the known findings (a face with two constrained edges; crease vertices with the geometric initialisation), border corners whose two edge contributions are exactly opposite (one of the two edges is kept: which one follows the edge numbering), and inputs without constrained element (eigenvector with a seeded random start); they are counted (dev_not_asserted:*), every per-execution clause still applies to them",
+    "documented defaults (table DOC_SIGNATURES, copied from the signatures and the 'Defaults to' lines of the unchanged tree; where prose and signature disagree - tol of inverse_power_method - the signature is the reference): an omitted option means its documented default and a positional option means the same as by keyword; the two calls of a comparison are made on fresh meshes built from the same lists with the same seeds, fields compared to 1e-7 (measured run-to-run noise 4e-16, OSQP 1.x does not adapt rho by wall-clock); a signature that differs from the table is reported as a violation of C18.defaults.signature; undocumented keyword defaults of the internal classes (FrameField2DFaces / FrameField2DVertices **kwargs) are not asserted",
     "lattice polygons: integer coordinates, no three points collinear (exact), all triangulations by flips from an ear-clipping start; corner turning angles and the 'exactly opposite contributions' relation order*turning = 180 mod 360 are decided in integer arithmetic",
 ]
 BOUNDS = {
-    "quick": "TRI(P) for the 7 point sets with <=6 vertices (30 triangulations), lifted grids 3x3 and 3x4, 5 closed meshes; per mesh: order 1-6 x element x n_smooth {0,1,3} in full with the switches within <=1 deviation (144 configurations) + 24 flat-connection configurations on the planar version; relabelings (n_smooth=0, cad off): all n! for n<=4 (24 cfgs), all 5! on one pentagon triangulation and every transposition on the other 5-vertex meshes (12 cfgs); face-listing deviations <=2 on n<=4, <=1 on n=5 (24 cfgs); lattice polygons trap, trap+1, rect+1, rtri+1, para+1, ell (17 triangulations): the same sweep with the inert features switch left on (108 + 24 flat configurations); histories: 216 ordered pairs (same element: order or n_smooth differs; other element: all order pairs, n_smooth 0) on each of 14 meshes (TRI of the <=5-point sets with interior vertices, grid 3x3, tetrahedron, octahedron, torus 3x3, TRI(trap+1), TRI(rtri+1)) + the 48 features-only pairs (element x order x n_smooth {0,3}, on->off and off->on) on the 3 of them with sharp interior edges; all history tasks a second time with display_duplicate_attribute_warning=True; deviation dimensions (unit 2^-48, unit 2^48, sort_neighborhoods=False): 31 meshes (first and last triangulation of each of the 7 point sets and 6 lattice polygons, both grids, the 5 closed meshes) x element; per mesh 28 vertex / 20 face configurations (24 / 16 on lattice polygons) + 4 flat-connection ones per element, each run 4 times (reference, 2 units, unsorted rings); every face in position 0 and every vertex in position 0 under unsorted rings for the orders 1 and 4, smoothing off",
-    "thorough": "TRI(P) for all 13 point sets up to 8 vertices (387 triangulations), grids, closed meshes; switches within <=2 deviations for n<=6, grids and closed meshes (270 + 48 flat configurations per mesh), <=1 for n=7 (144+24), order x element x n_smooth only for n=8 (36+24); relabelings: all n! for n<=5 (42 cfgs n<=4, 24 cfgs n=5), all 6! on one triangulation of each 6-point set (12 cfgs), every transposition on the other 6-vertex meshes (24 cfgs), on every 3rd 7-vertex and every 8th 8-vertex mesh (12 cfgs) and on the 3x3 grid (24 cfgs); face-listing deviations <=2 for n<=5, <=1 for n=6 and every 6th mesh with n>=7 (24 cfgs); lattice polygons: all 11 sets (91 triangulations), switches within <=2 deviations for n<=6, <=1 for n=7; histories: all 552 ordered pairs of element x order x n_smooth {0,3} on each of 94 meshes (TRI of the <=6-point sets with interior vertices, grid 3x3, 5 closed meshes, TRI of the 7 lattice sets with an interior point) + the 48 features-only pairs on those with sharp interior edges; all history tasks a second time with display_duplicate_attribute_warning=True; deviation dimensions: every triangulation of the point sets with <= 6 points and every 4th of the larger ones, all triangulations of the 11 lattice polygons, grids, closed meshes; single-switch deviations and the flat connection for all orders 1-6; same units (2^-48, 2^48) and position-0 listings as quick",
+    "quick": "TRI(P) for the 7 point sets with <=6 vertices (30 triangulations), lifted grids 3x3 and 3x4, 5 closed meshes; per mesh: order 1-6 x element x n_smooth {0,1,3} in full with the switches within <=1 deviation (144 configurations) + 24 flat-connection configurations on the planar version; relabelings (n_smooth=0, cad off): all n! for n<=4 (24 cfgs), all 5! on one pentagon triangulation and every transposition on the other 5-vertex meshes (12 cfgs); face-listing deviations <=2 on n<=4, <=1 on n=5 (24 cfgs); lattice polygons trap, trap+1, rect+1, rtri+1, para+1, ell (17 triangulations): the same sweep with the inert features switch left on (108 + 24 flat configurations); histories: 216 ordered pairs (same element: order or n_smooth differs; other element: all order pairs, n_smooth 0) on each of 14 meshes (TRI of the <=5-point sets with interior vertices, grid 3x3, tetrahedron, octahedron, torus 3x3, TRI(trap+1), TRI(rtri+1)) + the 48 features-only pairs (element x order x n_smooth {0,3}, on->off and off->on) on the 3 of them with sharp interior edges; all history tasks a second time with display_duplicate_attribute_warning=True; deviation dimensions (unit 2^-48, unit 2^48, sort_neighborhoods=False): 31 meshes (first and last triangulation of each of the 7 point sets and 6 lattice polygons, both grids, the 5 closed meshes) x element; per mesh 28 vertex / 20 face configurations (24 / 16 on lattice polygons) + 4 flat-connection ones per element, each run 4 times (reference, 2 units, unsorted rings); every face in position 0 and every vertex in position 0 under unsorted rings for the orders 1 and 4, smoothing off; argument forms: 11 entry points (31 options) on a 5x4 grid folded along a sharp ridge and the icosahedron (operators and connections also on the octahedron), inverse_power_method also on a 4x4 diagonal matrix with eigenvalue ratio 1.02 (documented maxiter binding): ~800 calls",
+    "thorough": "TRI(P) for all 13 point sets up to 8 vertices (387 triangulations), grids, closed meshes; switches within <=2 deviations for n<=6, grids and closed meshes (270 + 48 flat configurations per mesh), <=1 for n=7 (144+24), order x element x n_smooth only for n=8 (36+24); relabelings: all n! for n<=5 (42 cfgs n<=4, 24 cfgs n=5), all 6! on one triangulation of each 6-point set (12 cfgs), every transposition on the other 6-vertex meshes (24 cfgs), on every 3rd 7-vertex and every 8th 8-vertex mesh (12 cfgs) and on the 3x3 grid (24 cfgs); face-listing deviations <=2 for n<=5, <=1 for n=6 and every 6th mesh with n>=7 (24 cfgs); lattice polygons: all 11 sets (91 triangulations), switches within <=2 deviations for n<=6, <=1 for n=7; histories: all 552 ordered pairs of element x order x n_smooth {0,3} on each of 94 meshes (TRI of the <=6-point sets with interior vertices, grid 3x3, 5 closed meshes, TRI of the 7 lattice sets with an interior point) + the 48 features-only pairs on those with sharp interior edges; all history tasks a second time with display_duplicate_attribute_warning=True; deviation dimensions: every triangulation of the point sets with <= 6 points and every 4th of the larger ones, all triangulations of the 11 lattice polygons, grids, closed meshes; single-switch deviations and the flat connection for all orders 1-6; same units (2^-48, 2^48) and position-0 listings as quick; argument forms: as quick + the lifted 3x4 grid and the 3x3 torus",
 }
 
 SEED = int(os.environ.get("VERIF_SEED", "0") or 0)
@@ -350,6 +358,8 @@ def tasks(tier):
                 dev = 2 if n <= 5 else (1 if (n == 6 or idx % 6 == 0) else 0)
             if dev:
                 out.append({"kind": "listing", "mesh": name, "pts": L.lift(P), "faces": tri, "dev": dev})
+    # ---- documented defaults and call forms of the public entry points
+    out += _dflt_tasks(tier)
     return out
 
 
@@ -1200,6 +1210,435 @@ def _deviation(task, rep, M):
         rep.sample({"mesh": name, "faces": task["faces"], "element": el, "deviations": [":unit=2^%d" % e for e in task["exps"]] + [":sort=False"]})
 
 
+# ------------------------------------------------------------------------------------------ documented defaults / call forms
+# Every option of every public entry point this property exercises, in the documented order, with its documented default
+# (copied from the signatures / 'Defaults to' lines of the unchanged tree; where the two disagree the signature wins:
+# inverse_power_method.tol).  NOT read from the library at run time: a changed default changes the signature too.
+REQ = "<required>"
+DOC_SIGNATURES = {
+    "framefield.SurfaceFrameField": [("mesh", REQ), ("elements", REQ), ("order", 4), ("features", True), ("verbose", False), ("n_smooth", 3),
+                                     ("smooth_attach_weight", None), ("use_cotan", True), ("cad_correction", True), ("smooth_normals", True),
+                                     ("singularity_indices", None), ("custom_connection", None), ("custom_features", None)],
+    "FrameField2DFaces.flag_singularities": [("singul_attr_name", "singuls")],
+    "FrameField2DVertices.flag_singularities": [("singul_attr_name", "singuls")],
+    "operators.laplacian": [("mesh", REQ), ("cotan", True), ("connection", None), ("order", 4)],
+    "operators.laplacian_triangles": [("mesh", REQ), ("cotan", True), ("connection", None), ("order", 4)],
+    "operators.cotan_edge_diagonal": [("mesh", REQ), ("inverse", True)],
+    "operators.area_weight_matrix": [("mesh", REQ), ("inverse", False), ("sqrt", False), ("format", "csc")],
+    "operators.area_weight_matrix_faces": [("mesh", REQ), ("inverse", False), ("format", "csc")],
+    "optimize.inverse_power_method": [("A", REQ), ("m", 0.0), ("B", None), ("maxiter", 100), ("tol", 1e-10)],
+    "processing.SurfaceConnectionVertices": [("mesh", REQ), ("feat", None)],
+    "processing.SurfaceConnectionFaces": [("mesh", REQ), ("feat", None)],
+}
+# a value other than the default for every option ('@...' = an object built on the mesh of the call, see _dflt_resolve): used to
+# decide, on the input at hand, whether the option matters at all (vacuity guard) and as the values of the positional forms
+DOC_OTHER = {
+    "framefield.SurfaceFrameField": {"order": 3, "features": False, "verbose": True, "n_smooth": 1, "smooth_attach_weight": 0.75, "use_cotan": False,
+                                     "cad_correction": False, "smooth_normals": False, "singularity_indices": "@zero_indices",
+                                     "custom_connection": "@connection", "custom_features": "@border_features"},
+    "FrameField2DFaces.flag_singularities": {"singul_attr_name": "c18_other_name"},
+    "FrameField2DVertices.flag_singularities": {"singul_attr_name": "c18_other_name"},
+    "operators.laplacian": {"cotan": False, "connection": "@connection", "order": 3},
+    "operators.laplacian_triangles": {"cotan": False, "connection": "@connection", "order": 3},
+    "operators.cotan_edge_diagonal": {"inverse": False},
+    "operators.area_weight_matrix": {"inverse": True, "sqrt": True, "format": "csr"},
+    "operators.area_weight_matrix_faces": {"inverse": True, "format": "csr"},
+    "optimize.inverse_power_method": {"m": 0.25, "B": "@mass", "maxiter": 2, "tol": 1e-2},
+    "processing.SurfaceConnectionVertices": {"feat": "@features"},
+    "processing.SurfaceConnectionFaces": {"feat": "@features"},
+}
+# further assignments of the options (the ones not named keep their default) under which every option is omitted in turn / the
+# positional forms are run: an option can be inert under the defaults of the others (vertices: 'features' and 'smooth_normals'
+# under cad_correction=True; 'order' of a Laplacian without connection)
+DOC_BASES = {
+    "framefield.SurfaceFrameField": [{}, {"cad_correction": False}],
+    "operators.laplacian": [{}, {"connection": "@connection"}],
+    "operators.laplacian_triangles": [{}, {"connection": "@connection"}],
+}
+# value vectors of the positional forms (adjacent options differ in both vectors, so that two exchanged neighbours show)
+DOC_VECTORS = {
+    "framefield.SurfaceFrameField": [
+        {"order": 3, "features": False, "verbose": True, "n_smooth": 1, "smooth_attach_weight": 0.75, "use_cotan": False, "cad_correction": True,
+         "smooth_normals": False},
+        {"order": 2, "features": True, "verbose": False, "n_smooth": 0, "use_cotan": True, "cad_correction": False, "smooth_normals": True},
+        {"order": 4, "features": True, "n_smooth": 2, "cad_correction": False, "custom_connection": "@connection", "custom_features": "@border_features"}],
+}
+DFLT_EL = {"FrameField2DFaces.flag_singularities": "faces", "FrameField2DVertices.flag_singularities": "vertices", "operators.laplacian": "vertices",
+           "operators.laplacian_triangles": "faces", "operators.cotan_edge_diagonal": "faces", "operators.area_weight_matrix": "vertices",
+           "operators.area_weight_matrix_faces": "faces", "processing.SurfaceConnectionVertices": "vertices",
+           "processing.SurfaceConnectionFaces": "faces"}
+# options that cannot change anything on any input of the family (measured on the unchanged tree, asserted by finish the other way
+# round: every option NOT listed here changed the result on some input when given its other value)
+DFLT_NEVER_MATTERS = set()
+DFLT_TOL = 1e-7
+
+
+def _dflt_meshes(tier):
+    """inputs of the defaults dimension: a 5x4 grid folded along a sharp ridge (bordered; 3 interior feature edges, free vertices and
+    free faces left when they are constrained), the icosahedron (closed, nothing constrained: eigen-solve path); thorough: + the
+    lifted 3x4 grid, the 3x3 torus"""
+    from mc import families as F
+    p, f = F.grid(5, 4, "tri", z=lambda i, j: 1.5 * abs(i - 2) + (j * j) / 16.0 + (i * j) / 32.0)
+    out = [("ridge5x4", [list(map(float, q)) for q in p], [list(t) for t in f])]
+    out += [(n, p, f) for n, p, f in _closed() if n == "icosahedron" or (tier != "quick" and n == "torus3x3")]
+    if tier != "quick":
+        p, f = _grid(3, 4)
+        out.append(("grid3x4", p, f))
+    return out
+
+
+def _dflt_tasks(tier):
+    out = [{"kind": "defaults", "part": "signature"}]
+    for name, p, f in _dflt_meshes(tier):
+        for el in ("vertices", "faces"):
+            out.append({"kind": "defaults", "part": "forms", "callees": ["framefield.SurfaceFrameField"], "mesh": name, "pts": p, "faces": f, "el": el})
+            out.append({"kind": "defaults", "part": "forms", "callees": sorted(c for c, e in DFLT_EL.items() if e == el) + ["optimize.inverse_power_method"],
+                        "mesh": name, "pts": p, "faces": f, "el": el})
+    # the octahedron (every edge sharper than the feature threshold, 240 degrees around every vertex: the features change the
+    # charts of the vertex connection): operators and connections only
+    for name, p, f in _closed():
+        if name == "octahedron":
+            for el in ("vertices", "faces"):
+                out.append({"kind": "defaults", "part": "forms", "callees": sorted(c for c, e in DFLT_EL.items() if e == el and not c.endswith(".flag_singularities")),
+                            "mesh": name, "pts": p, "faces": f, "el": el})
+    return out
+
+
+class _seeded:
+    """np.random and scipy.sparse.linalg.eigsh seeded from VERIF_SEED for the duration of one call (same seam as _execute)"""
+
+    def __enter__(self):
+        import numpy as np
+        import scipy.sparse.linalg as spl
+        self.spl, self.eigsh0 = spl, spl.eigsh
+        eigsh0 = self.eigsh0
+
+        def eigsh_seeded(*a, **k):
+            if k.get("v0") is None and k.get("rng") is None:
+                k["rng"] = np.random.default_rng(SEED)
+            return eigsh0(*a, **k)
+        np.random.seed(SEED)
+        spl.eigsh = eigsh_seeded
+        return self
+
+    def __exit__(self, *a):
+        self.spl.eigsh = self.eigsh0
+        return False
+
+
+def _dflt_resolve(M, mesh, el, v):
+    if not (isinstance(v, str) and v.startswith("@")):
+        return v
+    P = M.processing
+    if v == "@connection":
+        return (P.SurfaceConnectionVertices if el == "vertices" else P.SurfaceConnectionFaces)(mesh)
+    if v in ("@features", "@border_features"):
+        d = P.FeatureEdgeDetector(only_border=(v == "@border_features"), verbose=False)
+        d.run(mesh)
+        return d
+    if v == "@zero_indices":
+        return (mesh.faces if el == "vertices" else mesh.vertices).create_attribute("c18_indices", float)
+    if v == "@mass":
+        return (M.operators.area_weight_matrix(mesh) if el == "vertices" else M.operators.area_weight_matrix_faces(mesh)).tocsc()
+    raise AssertionError(v)
+
+
+def _dflt_function(M, callee):
+    from mouette import framefield as ff
+    if callee == "framefield.SurfaceFrameField":
+        return ff.SurfaceFrameField
+    mod, name = callee.split(".")
+    return getattr(getattr(M, mod), name)
+
+
+def _dense(x):
+    import numpy as np
+    return np.asarray(x.todense()) if hasattr(x, "todense") else np.asarray(x)
+
+
+def _dflt_call(M, callee, el, pts, faces, args, kwargs, inp="mesh"):
+    """One call of the entry point `callee` on a fresh mesh with the options `args` (positionally, after the required arguments) and
+    `kwargs` -> record {field: value} of everything observable about the result (compared field by field by _rec_diff)."""
+    import contextlib, io
+    import numpy as np
+    from mc import families as F
+    mesh = F.build_surface(pts, faces)
+    a = [_dflt_resolve(M, mesh, el, v) for v in args]
+    k = {n: _dflt_resolve(M, mesh, el, v) for n, v in kwargs.items()}
+    rec, buf = {}, io.StringIO()
+    with _seeded(), contextlib.redirect_stdout(buf):
+        if callee == "framefield.SurfaceFrameField" or callee.endswith(".flag_singularities"):
+            flag = callee.endswith(".flag_singularities")
+            stage = "construct"
+            if flag:
+                o = call(_dflt_function(M, "framefield.SurfaceFrameField"), mesh, el, order=4, n_smooth=0, cad_correction=False, verbose=False)
+            else:
+                o = call(_dflt_function(M, callee), mesh, el, *a, **k)
+            if o.ok:
+                f = o.value
+                rec["class"], stage = type(f).__name__, "initialize"
+                if flag and type(f).__name__ != callee.split(".")[0]:
+                    rec["class_unexpected"] = True
+                o = call(f.initialize)
+            if o.ok:
+                rec["connection"] = type(f.conn).__name__
+                rec["feature_edges"] = sorted(sorted(int(x) for x in mesh.edges[e]) for e in f.feat.feature_edges)
+                rec["constraints"] = np.array(f.var, dtype=complex).copy()
+                stage = "run"
+                o = call(f.run)
+            if o.ok:
+                rec["field"] = np.array(f.var, dtype=complex).copy()
+                stage = "flag_singularities"
+                conts = {c: getattr(mesh, c) for c in ("vertices", "edges", "faces", "face_corners")}
+                before = {c: set(x.attributes) for c, x in conts.items()}
+                o = call(f.flag_singularities, *a, **k) if flag else call(f.flag_singularities)
+                if o.ok:
+                    rec["attributes_created"] = sorted("%s.%s" % (c, n) for c, x in conts.items() for n in set(x.attributes) - before[c])
+                    for nm in rec["attributes_created"]:
+                        c, n = nm.split(".", 1)
+                        attr = conts[c].get_attribute(n)
+                        oa = call(lambda: np.array([np.ravel(np.asarray(attr[i], dtype=float)) for i in range(len(conts[c]))]))
+                        rec["attribute:" + nm] = oa.value if oa.ok else "unreadable:" + str(oa.exc)
+            if not o.ok:
+                rec["raises"] = stage + ":" + str(o.exc)
+        elif callee == "optimize.inverse_power_method":
+            import scipy.sparse as sp
+            if inp == "slow_diagonal":
+                # eigenvalues 1 and 1.02: the iteration gains a factor 1.02 per step, tol=1e-10 is not reached within 100 steps
+                A = sp.diags([1.0, 1.02, 2.0, 3.0], format="csc")
+            else:
+                conn = _dflt_resolve(M, mesh, el, "@connection")
+                A = (M.operators.laplacian if el == "vertices" else M.operators.laplacian_triangles)(mesh, cotan=True, connection=conn, order=4).tocsc()
+            np.random.seed(SEED)
+            o = call(_dflt_function(M, callee), A, *a, **k)
+            if o.ok:
+                rec["eigenvector"] = np.asarray(o.value)
+            else:
+                rec["raises"] = str(o.exc)
+        elif callee.startswith("operators."):
+            o = call(_dflt_function(M, callee), mesh, *a, **k)
+            if o.ok:
+                rec["matrix"] = _dense(o.value)
+                rec["complex"] = bool(np.iscomplexobj(rec["matrix"]))
+                if any(n == "format" for n, _ in DOC_SIGNATURES[callee]):
+                    rec["format"] = str(getattr(o.value, "format", None))
+            else:
+                rec["raises"] = str(o.exc)
+        else:       # connections
+            o = call(_dflt_function(M, callee), mesh, *a, **k)
+            if o.ok:
+                conn = o.value
+                geo_he = sorted({(int(f[i]), int(f[(i + 1) % 3])) for f in faces for i in range(3)} | {(int(f[(i + 1) % 3]), int(f[i])) for f in faces for i in range(3)})
+                o = call(lambda: None)
+                if el == "vertices":
+                    o = call(lambda: np.array([conn.transport(u, v) for (u, v) in geo_he]))
+                else:
+                    nb = {}
+                    for t, f in enumerate(mesh.faces):
+                        for i in range(3):
+                            nb.setdefault(tuple(sorted((int(f[i]), int(f[(i + 1) % 3])))), []).append(t)
+                    pairs = sorted(p for ts in nb.values() if len(ts) == 2 for p in (tuple(ts), tuple(ts[::-1])))
+                    o = call(lambda: np.array([conn.transport(s, t) for (s, t) in pairs]))
+                if o.ok:
+                    rec["transport"] = o.value
+                    n = len(pts) if el == "vertices" else len(faces)
+                    o = call(lambda: np.array([[list(map(float, v)) for v in conn.base(i)] for i in range(n)]))
+                if o.ok:
+                    rec["bases"] = o.value
+            if not o.ok:
+                rec["raises"] = str(o.exc)
+    rec["printed_something"] = bool(buf.getvalue().strip())
+    return rec
+
+
+def _rec_diff(a, b):
+    """name of the first field in which two records differ (None: same)"""
+    import numpy as np
+    for k in list(a) + [k for k in b if k not in a]:      # in the order the fields were observed (cause before consequence)
+        if k not in a or k not in b:
+            return k
+        x, y = a[k], b[k]
+        if isinstance(x, np.ndarray) or isinstance(y, np.ndarray):
+            x, y = np.asarray(x), np.asarray(y)
+            if x.shape != y.shape:
+                return k
+            fin = np.abs(y[np.isfinite(y)]) if y.size else y
+            if not np.allclose(x, y, rtol=0.0, atol=DFLT_TOL * max(1.0, float(fin.max()) if fin.size else 1.0), equal_nan=True):
+                return k
+        elif x != y:
+            return k
+    return None
+
+
+def _rec_json(rec):
+    import numpy as np
+    out = {}
+    for k, v in rec.items():
+        if isinstance(v, np.ndarray):
+            v = [complex(z) if np.iscomplexobj(v) else float(z) for z in v.ravel()[:12]]
+        out[k] = v
+    return out
+
+
+def _dflt_signature(rep, M):
+    """the pinned table against inspect.signature(): names, order, kinds and default values"""
+    import inspect
+    from mc import families as F
+    fns = {}
+    p, f = _grid(3, 3)
+    for el, key in (("faces", "FrameField2DFaces.flag_singularities"), ("vertices", "FrameField2DVertices.flag_singularities")):
+        o = call(_dflt_function(M, "framefield.SurfaceFrameField"), F.build_surface(p, f), el, verbose=False)
+        if o.ok and type(o.value).__name__ == key.split(".")[0]:
+            fns[key] = type(o.value).flag_singularities
+    for callee, doc in sorted(DOC_SIGNATURES.items()):
+        fn = fns.get(callee) if callee.endswith(".flag_singularities") else call(_dflt_function, M, callee).value
+        if fn is None:
+            rep.violation("C18.defaults.signature", callee, "mismatch:entry_point_missing", "entry_point", {"callee": callee})
+            continue
+        o = call(inspect.signature, fn)
+        if not o.ok:
+            rep.violation("C18.defaults.signature", callee, exc_kind(o), "signature", {"msg": o.msg})
+            continue
+        params = [(n, q) for n, q in o.value.parameters.items() if n != "self"]
+        named = [(n, q) for n, q in params if q.kind not in (q.VAR_KEYWORD, q.VAR_POSITIONAL)]
+        det = {"callee": callee, "documented": [[n, repr(d)] for n, d in doc],
+               "signature": [[n, repr(q.default) if q.default is not q.empty else REQ] for n, q in named]}
+        rep.evaluations += 1
+        for i, (n, d) in enumerate(doc):
+            rep.flag("defaults:signature:%s:%s" % (callee, n))
+            got = dict(named).get(n)
+            if got is None:
+                rep.violation("C18.defaults.signature", callee, "mismatch:parameter_missing", n, det)
+                continue
+            if [m for m, _ in named].index(n) != i:
+                rep.violation("C18.defaults.signature", callee, "mismatch:parameter_order", n, det)
+            if got.kind != got.POSITIONAL_OR_KEYWORD:
+                rep.violation("C18.defaults.signature", callee, "mismatch:parameter_kind", n, det)
+            have = REQ if got.default is got.empty else got.default
+            if not (type(have) is type(d) and have == d):
+                rep.violation("C18.defaults.signature", callee, "mismatch:default_value", n, det)
+        for n, q in named:
+            if n not in dict(doc):
+                rep.violation("C18.defaults.signature", callee, "mismatch:undocumented_parameter", n, det)
+    rep.traces += 1
+
+
+def _dflt_forms(task, rep, M):
+    """For every entry point of the task: (a) omitted: under every base assignment of DOC_BASES, every option at its documented
+    default omitted in turn, and all of them omitted together, must give what passing the documented defaults explicitly gives;
+    (b) positional: the options passed positionally in the documented order (every prefix; the rest by keyword) must give what
+    the same values give by keyword - on the base assignments and on the value vectors of DOC_VECTORS / DOC_OTHER;
+    (c) vacuity: does the other value of an option change the result on this input (flag defaults:matters:...)."""
+    pts, faces, el, name = task["pts"], task["faces"], task["el"], task["mesh"]
+    for callee in task["callees"]:
+        doc = [(n, d) for n, d in DOC_SIGNATURES[callee] if not (isinstance(d, str) and d == REQ)]
+        names = [n for n, _ in doc]
+        default = dict(doc)
+        inputs = ["mesh"] + (["slow_diagonal"] if callee == "optimize.inverse_power_method" else [])
+        for inp in inputs:
+            cls_in = "" if inp == "mesh" else ":" + inp
+            ctx = {"callee": callee, "mesh": name, "pts": pts, "faces": faces, "element": el, "input": inp,
+                   "documented_defaults": {n: repr(d) for n, d in doc}}
+
+            def run(args, kwargs):
+                rep.traces += 1
+                rep.transitions += 1
+                return _dflt_call(M, callee, el, pts, faces, args, kwargs, inp)
+
+            def judge(sub, cls, ref, got, form, kind_extra=""):
+                rep.evaluations += 1
+                d = _rec_diff(ref, got)
+                rep.outcome("defaults_form", "same" if d is None else "differs")
+                if d is not None:
+                    kind = ("raises:" + got["raises"].split(":")[-1]) if d == "raises" and "raises" in got else "mismatch:" + d.split(":")[0]
+                    rep.violation(sub, callee, kind, cls + cls_in, dict(ctx, call=form, differs_in=d, expected=_rec_json(ref), got=_rec_json(got)))
+            bases = DOC_BASES.get(callee, [{}]) if inp == "mesh" else [{}]
+            for ib, base in enumerate(bases):
+                full = dict(default, **base)
+                ref = run([], full)
+                rep.case(("defaults", callee, name, el, inp, ib))
+                rep.states += 1
+                if "raises" in ref:
+                    rep.count("defaults:reference_call_raises")
+                    rep.flag("defaults:reference_raises:%s:%s" % (callee, name))
+                # (a) omitted, one at a time / all together
+                for n in names:
+                    if n in base:
+                        continue
+                    kw = {m: v for m, v in full.items() if m != n}
+                    judge("C18.defaults.omitted", n, ref, run([], kw), {"keywords": {m: repr(v) for m, v in kw.items()}, "omitted": [n]})
+                    rep.flag("defaults:omitted_alone:%s:%s" % (callee, n))
+                    # (c) does it matter here?
+                    oth = run([], dict(full, **{n: DOC_OTHER[callee][n]}))
+                    if _rec_diff(ref, oth) is not None:
+                        rep.flag("defaults:matters:%s:%s" % (callee, n))
+                        rep.flag("defaults:matters:%s:%s:%s" % (callee, n, el))
+                if len(names) > 1 or base:
+                    judge("C18.defaults.omitted", "all_options_together" if not base else "all_other_options_together", ref, run([], dict(base)),
+                          {"keywords": {m: repr(v) for m, v in base.items()}, "omitted": [n for n in names if n not in base]})
+                for n in names:
+                    if n not in base:
+                        rep.flag("defaults:omitted_together:%s:%s" % (callee, n))
+                # (b) positional, full length, on the base assignment
+                judge("C18.defaults.positional", "all_positional", ref, run([full[n] for n in names], {}),
+                      {"positional": [repr(full[n]) for n in names]})
+            if inp != "mesh":
+                # the input exists to make maxiter matter: 100 steps are not enough, one more step changes the answer
+                if _rec_diff(run([], dict(default)), run([], dict(default, maxiter=default["maxiter"] + 1))) is not None:
+                    rep.flag("defaults:slow_diagonal:documented_maxiter_is_binding")
+                continue
+            vectors = DOC_VECTORS.get(callee, [DOC_OTHER[callee], {}])
+            for vec in vectors:
+                full = dict(default, **vec)
+                ref = run([], full)
+                for k in range(1, len(names) + 1):
+                    got = run([full[n] for n in names[:k]], {n: full[n] for n in names[k:]})
+                    judge("C18.defaults.positional", "positional_upto:" + names[k - 1], ref, got,
+                          {"positional": [repr(full[n]) for n in names[:k]], "keywords": {n: repr(full[n]) for n in names[k:]}})
+                    rep.flag("defaults:positional:%s:%s" % (callee, names[k - 1]))
+                    # adjacent exchange would show: the two values differ
+                    if k >= 2 and repr(full[names[k - 1]]) != repr(full[names[k - 2]]):
+                        rep.flag("defaults:positional_neighbours_differ:%s:%s" % (callee, names[k - 1]))
+    rep.count("defaults:tasks")
+    if len(rep.samples) < 1:
+        rep.sample({"mesh": name, "faces": faces, "element": el, "entry_points": task["callees"], "forms": ["omitted", "positional", "keyword"]})
+
+
+def _defaults(task, rep, M):
+    if task["part"] == "signature":
+        _dflt_signature(rep, M)
+    else:
+        _dflt_forms(task, rep, M)
+
+
+def _dflt_finish(tier, rep):
+    fails = []
+    for callee, doc in sorted(DOC_SIGNATURES.items()):
+        for n, d in doc:
+            if "defaults:signature:%s:%s" % (callee, n) not in rep.flags:
+                fails.append("defaults: %s(%s) never compared with the signature" % (callee, n))
+            if isinstance(d, str) and d == REQ:
+                continue
+            for what in ("omitted_alone", "omitted_together", "positional"):
+                if "defaults:%s:%s:%s" % (what, callee, n) not in rep.flags:
+                    fails.append("defaults: coverage flag missing: %s:%s:%s" % (what, callee, n))
+            if (callee, n) not in DFLT_NEVER_MATTERS and "defaults:matters:%s:%s" % (callee, n) not in rep.flags:
+                fails.append("defaults: the option %s of %s never changed the result on any input (a changed default could not show)" % (n, callee))
+    for n, _ in DOC_SIGNATURES["framefield.SurfaceFrameField"][2:10]:
+        for el in ("vertices", "faces"):
+            if (el, n) in (("faces", "cad_correction"), ("faces", "smooth_normals")):
+                continue        # documented: not options of the face-based field
+            if "defaults:matters:framefield.SurfaceFrameField:%s:%s" % (n, el) not in rep.flags:
+                fails.append("defaults: SurfaceFrameField(%s): option %s never changed the result" % (el, n))
+    if "defaults:slow_diagonal:documented_maxiter_is_binding" not in rep.flags:
+        fails.append("defaults: inverse_power_method converged within the documented maxiter on the slow input (a larger default could not show)")
+    if "same" not in rep.outcomes.get("defaults_form", ()):
+        fails.append("defaults: no call form ever agreed with its reference")
+    if not rep.counters.get("defaults:tasks"):
+        fails.append("no defaults task was run")
+    return fails
+
+
 def _feat_cls(A, B):
     if A["feat"] == B["feat"]:
         return ""
@@ -1220,6 +1659,8 @@ def run_task(task, rep: Report):
             _history(task, rep, M)
         elif task["kind"] == "deviation":
             _deviation(task, rep, M)
+        elif task["kind"] == "defaults":
+            _defaults(task, rep, M)
         else:
             _listing(task, rep, M)
     finally:
@@ -1299,6 +1740,7 @@ def finish(tier, rep: Report):
         want = rep.counters.get("dev:faces_in_position_0_wanted:" + el, 0) * len(_zero_configs(el))
         if not want or rep.counters.get("dev:sort=False:face_in_position_0:" + el, 0) != want:
             fails.append("deviation dimension: not every face was listed in position 0 (%s)" % el)
+    fails += _dflt_finish(tier, rep)
     return fails
 
 
